@@ -146,6 +146,18 @@ CHECKS = {
             "Python's str/base64/math/datetime are the reference; unasserted corners (BIN of negatives, SUBSTR 0/out of "
             "range, FORMAT_TIME wording) are don't-care with a weaker substring/seconds predicate.",
             "DESIGN.md 4 C16"),
+    "C04": ("exploration",
+            "exhaustive enumeration (4096 permission values on disk and x 7 types as zip modes; 41 capabilities x 6 "
+            "flag sets; every extension list overridden) plus property-based testing (Hypothesis) of metadata trees "
+            "and file contents against os.lstat, pwd/grp, listxattr, hashlib",
+            "Every selected column of every entry is compared with an independent observation of the same entry: "
+            "mode string and all permission/type booleans for the complete 16-bit domain, owners, links, blocks, "
+            "times, xattrs, decoded capabilities (cross-checked with getcap), location decomposition laws, extension "
+            "classes under default and overridden configuration, digests / line counts / shebang / contains for "
+            "contents at buffer boundaries.",
+            "Python's os/stat/hashlib/pwd/grp and getcap are trusted; heuristic columns (mime, is_text) and "
+            "created/accessed/device are not asserted.",
+            "DESIGN.md 4 C04"),
 }
 
 PENDING = {}
